@@ -6,6 +6,7 @@ import (
 	"go/constant"
 	"go/token"
 	"go/types"
+	"golang.org/x/tools/go/ssa"
 	"sort"
 	"strings"
 
@@ -147,59 +148,133 @@ func ruleLITINT(c *Ctx) []Obligation {
 		}
 		return "", false
 	}
-	// reader: keyword cases, prefix branches with their base, fallthrough base
+	// reader: accepted keywords (string constants the text is compared with, in a
+	// switch case or an == test), prefix conditions with the base of the SetString
+	// call they guard, and the base of the unguarded (fall-through) SetString.
+	// The shape of the control flow (switch / if chain / a boolean local holding
+	// the HasPrefix result) does not matter.
 	keywords := map[string]bool{}
 	prefixBase := map[string]int64{}
 	var fallBase int64 = -1
-	sname := readFn.Type().(*types.Signature).Params().At(1).Name()
-	setStringBase := func(n ast.Node) (int64, bool) {
-		var base int64
-		found := false
+	sobj := readFn.Type().(*types.Signature).Params().At(1)
+	isS := func(e ast.Expr) bool {
+		id, ok := unparen(e).(*ast.Ident)
+		return ok && info.ObjectOf(id) == sobj
+	}
+	pm := buildParents(rfd)
+	// region guarded by the condition expression e: the body of the if / case clause whose
+	// condition contains e, or — when e initialises a boolean local — the bodies of the ifs
+	// whose condition mentions that local.
+	var regionsOf func(e ast.Node, depth int) []ast.Node
+	regionsOf = func(e ast.Node, depth int) []ast.Node {
+		var out []ast.Node
+		child := e
+		for p := pm[e]; p != nil; child, p = p, pm[p] {
+			switch p := p.(type) {
+			case *ast.IfStmt:
+				if child == ast.Node(p.Cond) {
+					return append(out, p.Body)
+				}
+			case *ast.CaseClause:
+				for _, l := range p.List {
+					if child == ast.Node(l) {
+						return append(out, p)
+					}
+				}
+			case *ast.AssignStmt:
+				if depth < 2 && len(p.Lhs) == 1 && len(p.Rhs) == 1 && child == ast.Node(p.Rhs[0]) {
+					if id, ok := p.Lhs[0].(*ast.Ident); ok {
+						obj := info.ObjectOf(id)
+						ast.Inspect(rfd.Body, func(m ast.Node) bool {
+							if u, ok := m.(*ast.Ident); ok && u != id && info.ObjectOf(u) == obj {
+								if _, isIf := pm[u].(*ast.IfStmt); isIf || true {
+									out = append(out, regionsOf(u, depth+1)...)
+								}
+							}
+							return true
+						})
+					}
+					return out
+				}
+			case *ast.BlockStmt, *ast.FuncDecl:
+				return out
+			}
+		}
+		return out
+	}
+	setStringBases := func(n ast.Node) []int64 {
+		var bases []int64
 		ast.Inspect(n, func(m ast.Node) bool {
 			if call, ok := m.(*ast.CallExpr); ok && len(call.Args) == 2 {
 				if se, ok := unparen(call.Fun).(*ast.SelectorExpr); ok && se.Sel.Name == "SetString" {
 					if tv := info.Types[call.Args[1]]; tv.Value != nil {
 						if b, ok := constant.Int64Val(constant.ToInt(tv.Value)); ok {
-							base, found = b, true
+							bases = append(bases, b)
 						}
 					}
 				}
 			}
 			return true
 		})
-		return base, found
+		return bases
 	}
-	for _, st := range rfd.Body.List {
-		switch st := st.(type) {
+	var prefixRegions []ast.Node
+	ast.Inspect(rfd.Body, func(nd ast.Node) bool {
+		switch nd := nd.(type) {
 		case *ast.SwitchStmt:
-			if st.Tag != nil && exprString(st.Tag) == sname {
-				for _, cc := range st.Body.List {
+			if nd.Tag != nil && isS(nd.Tag) {
+				for _, cc := range nd.Body.List {
 					for _, e := range cc.(*ast.CaseClause).List {
-						if s, ok := strOf(e); ok {
-							keywords[s] = true
+						if k, ok := strOf(e); ok {
+							keywords[k] = true
 						}
 					}
 				}
-			} else if st.Tag == nil {
-				for _, cc := range st.Body.List {
-					cl := cc.(*ast.CaseClause)
-					for _, e := range cl.List {
-						if call, ok := e.(*ast.CallExpr); ok && len(call.Args) == 2 && strings.HasSuffix(exprString(call.Fun), "HasPrefix") {
-							if pfx, ok := strOf(call.Args[1]); ok {
-								if b, ok := setStringBase(cl); ok {
-									prefixBase[pfx] = b
-								}
+			}
+		case *ast.BinaryExpr:
+			if nd.Op == token.EQL {
+				if k, ok := strOf(nd.Y); ok && isS(nd.X) {
+					keywords[k] = true
+				} else if k, ok := strOf(nd.X); ok && isS(nd.Y) {
+					keywords[k] = true
+				}
+			}
+		case *ast.CallExpr:
+			if len(nd.Args) == 2 && isPkgFunc(calleeOf(info, nd), "strings", "HasPrefix") && isS(nd.Args[0]) {
+				if pfx, ok := strOf(nd.Args[1]); ok {
+					for _, r := range regionsOf(nd, 0) {
+						prefixRegions = append(prefixRegions, r)
+						for _, b := range setStringBases(r) {
+							if old, has := prefixBase[pfx]; has && old != b {
+								prefixBase[pfx] = -2 // conflicting bases under one prefix
+							} else if !has {
+								prefixBase[pfx] = b
 							}
 						}
 					}
 				}
 			}
-		case *ast.AssignStmt:
-			if b, ok := setStringBase(st); ok {
-				fallBase = b
+		}
+		return true
+	})
+	// fall-through: SetString calls outside every prefix region
+	ast.Inspect(rfd.Body, func(m ast.Node) bool {
+		for _, r := range prefixRegions {
+			if m == r {
+				return false
 			}
 		}
-	}
+		if call, ok := m.(*ast.CallExpr); ok && len(call.Args) == 2 {
+			if se, ok := unparen(call.Fun).(*ast.SelectorExpr); ok && se.Sel.Name == "SetString" {
+				if tv := info.Types[call.Args[1]]; tv.Value != nil {
+					if b, ok := constant.Int64Val(constant.ToInt(tv.Value)); ok {
+						fallBase = b
+					}
+				}
+			}
+		}
+		return true
+	})
 	// printer: every return expression
 	n := 0
 	defs := collectDefs(info, ifd.Body)
@@ -322,7 +397,7 @@ func ruleLITFP(c *Ctx) []Obligation {
 	// reader: kinds handled by the decimal switch (the last top-level switch over typ.Kind)
 	decimalKinds := map[string]bool{}
 	for _, st := range rfd.Body.List {
-		if sw, ok := st.(*ast.SwitchStmt); ok && sw.Tag != nil && strings.HasSuffix(exprString(sw.Tag), ".Kind") {
+		if sw, ok := st.(*ast.SwitchStmt); ok && sw.Tag != nil && isKindTag(info, rfd.Body, sw.Tag) {
 			decimalKinds = map[string]bool{}
 			for _, cc := range sw.Body.List {
 				for _, e := range cc.(*ast.CaseClause).List {
@@ -334,7 +409,7 @@ func ruleLITFP(c *Ctx) []Obligation {
 	// printer: the kind switch
 	var ksw *ast.SwitchStmt
 	for _, st := range ifd.Body.List {
-		if sw, ok := st.(*ast.SwitchStmt); ok && sw.Tag != nil && strings.HasSuffix(exprString(sw.Tag), ".Kind") {
+		if sw, ok := st.(*ast.SwitchStmt); ok && sw.Tag != nil && isKindTag(info, ifd.Body, sw.Tag) {
 			ksw = sw
 		}
 	}
@@ -453,6 +528,7 @@ func (c *Ctx) litFPDoubleForm(rfd *ast.FuncDecl, info *types.Info) []Obligation 
 	}
 	// the variable holding the parsed bits
 	var bits types.Object
+	var bitsCall *ast.CallExpr
 	var ksw *ast.SwitchStmt
 	for _, st := range def.Body {
 		switch st := st.(type) {
@@ -461,37 +537,117 @@ func (c *Ctx) litFPDoubleForm(rfd *ast.FuncDecl, info *types.Info) []Obligation 
 				if call, ok := st.Rhs[0].(*ast.CallExpr); ok && isPkgFunc(calleeOf(info, call), "strconv", "ParseUint") {
 					if id, ok := st.Lhs[0].(*ast.Ident); ok {
 						bits = info.ObjectOf(id)
+						bitsCall = call
 					}
 				}
 			}
 		case *ast.SwitchStmt:
-			if st.Tag != nil && strings.HasSuffix(exprString(st.Tag), ".Kind") {
+			if st.Tag != nil && isKindTag(info, rfd.Body, st.Tag) {
 				ksw = st
 			}
 		}
 	}
-	if bits == nil || ksw == nil {
-		return []Obligation{{Key: "16-digit double form branch", Verdict: UNDECIDED, Pos: c.pos(def.Pos()), Detail: "no `bits, err := strconv.ParseUint(...)` followed by a switch over the kind in the default hexadecimal branch"}}
+	_ = ksw
+	if bits == nil || bitsCall == nil {
+		return []Obligation{{Key: "16-digit double form branch", Verdict: UNDECIDED, Pos: c.pos(def.Pos()), Detail: "no `bits, err := strconv.ParseUint(...)` in the default hexadecimal branch"}}
 	}
-	for _, cc := range ksw.Body.List {
-		cl := cc.(*ast.CaseClause)
-		for _, e := range cl.List {
-			o := Obligation{Key: "float kind " + exprString(e) + " 16-digit form decodes the double bit pattern", Pos: c.pos(cl.Pos()), Verdict: VIOL,
-				Detail: "the 16-digit 0x form is the IEEE 754 double bit pattern of the value (LangRef), but this case does not decode the parsed bits with math.Float64frombits: the exponent/significand layout of a double is reinterpreted by other means"}
-			ast.Inspect(cl, func(m ast.Node) bool {
-				call, ok := m.(*ast.CallExpr)
-				if !ok || len(call.Args) != 1 || !isPkgFunc(calleeOf(info, call), "math", "Float64frombits") {
-					return true
+	// value flow on SSA: every use of the parsed bits (through phis, local cells and
+	// parameters of functions of this package) is the argument of math.Float64frombits
+	o := Obligation{Key: "16-digit form: the parsed bits are decoded only by math.Float64frombits", Pos: c.pos(bitsCall.Pos()), Verdict: OK}
+	sf := c.ssaFunc(c.lookupFunc(pkgCONS, "NewFloatFromString"))
+	var start ssa.Value
+	if sf != nil {
+		for _, b := range sf.Blocks {
+			for _, in := range b.Instrs {
+				if call, ok := in.(*ssa.Call); ok && call.Pos() == bitsCall.Lparen {
+					start = call
 				}
-				if id, ok := unparen(call.Args[0]).(*ast.Ident); ok && info.ObjectOf(id) == bits {
-					o.Verdict, o.Detail = OK, "math.Float64frombits(bits) on the parsed 64 bits"
-				}
-				return true
-			})
-			obs = append(obs, o)
+			}
 		}
 	}
-	return obs
+	if start == nil {
+		o.Verdict, o.Detail = UNDECIDED, "SSA call for the ParseUint of the default hexadecimal branch not found"
+		return append(obs, o)
+	}
+	good := 0
+	var other []string
+	seen := map[ssa.Value]bool{}
+	var follow func(v ssa.Value, tupleIdx int)
+	follow = func(v ssa.Value, tupleIdx int) {
+		if seen[v] {
+			return
+		}
+		seen[v] = true
+		refs := v.Referrers()
+		if refs == nil {
+			return
+		}
+		for _, r := range *refs {
+			switch r := r.(type) {
+			case *ssa.Extract:
+				if tupleIdx < 0 || r.Index == 0 {
+					if r.Index == 0 {
+						follow(r, -1)
+					}
+				}
+			case *ssa.Phi:
+				follow(r, -1)
+			case *ssa.DebugRef, *ssa.MakeInterface:
+				// debugging info / formatting of a message
+			case *ssa.Store:
+				if r.Val == v {
+					if a, ok := r.Addr.(*ssa.Alloc); ok {
+						for _, ar := range *a.Referrers() {
+							if ld, ok := ar.(*ssa.UnOp); ok && ld.Op == token.MUL {
+								follow(ld, -1)
+							}
+						}
+					} else {
+						other = append(other, c.pos(r.Pos())+": stored into memory")
+					}
+				}
+			case *ssa.Call:
+				callee := r.Call.StaticCallee()
+				switch {
+				case callee != nil && callee.Pkg != nil && callee.Pkg.Pkg.Path() == "math" && callee.Name() == "Float64frombits":
+					good++
+				case callee != nil && callee.Pkg != nil && callee.Pkg.Pkg.Path() == pkgCONS && len(callee.Params) == len(r.Call.Args):
+					for i, a := range r.Call.Args {
+						if a == v {
+							follow(callee.Params[i], -1)
+						}
+					}
+				default:
+					name := "a dynamic call"
+					if callee != nil {
+						name = callee.String()
+					}
+					other = append(other, c.pos(r.Pos())+": passed to "+name)
+				}
+			case *ssa.BinOp:
+				if r.Op == token.EQL || r.Op == token.NEQ {
+					continue
+				}
+				other = append(other, fmt.Sprintf("%s: arithmetic %s on the bit pattern", c.pos(r.Pos()), r.Op))
+			case *ssa.Convert:
+				other = append(other, c.pos(r.Pos())+": converted to "+r.Type().String())
+			default:
+				other = append(other, fmt.Sprintf("%s: used by %T", c.pos(r.Pos()), r))
+			}
+		}
+	}
+	follow(start, 0)
+	switch {
+	case len(other) > 0:
+		sort.Strings(other)
+		o.Verdict = VIOL
+		o.Detail = "the 16-digit 0x form is the IEEE 754 double bit pattern of the value (LangRef); here the parsed bits are also taken apart by other means — " + strings.Join(other, "; ") + " — so the exponent/significand layout of a double is reinterpreted by hand"
+	case good == 0:
+		o.Verdict, o.Detail = VIOL, "the parsed bits never reach math.Float64frombits"
+	default:
+		o.Detail = fmt.Sprintf("%d decode site(s), all math.Float64frombits(bits); no other use of the bit pattern", good)
+	}
+	return append(obs, o)
 }
 
 // litFPPrecision: every `const precision = N` of the reader sits in a case of
@@ -662,4 +818,23 @@ func spellingParts(info *types.Info, defs map[types.Object][]ast.Expr, e ast.Exp
 		}
 	}
 	return "", false, -1, nil
+}
+
+// isKindTag: the switch tag is the kind of a floating-point type — `x.Kind`
+// itself or a local variable initialised with it.
+func isKindTag(info *types.Info, body *ast.BlockStmt, tag ast.Expr) bool {
+	tag = unparen(tag)
+	if strings.HasSuffix(exprString(tag), ".Kind") {
+		return true
+	}
+	id, ok := tag.(*ast.Ident)
+	if !ok {
+		return false
+	}
+	for _, d := range collectDefs(info, body)[info.ObjectOf(id)] {
+		if strings.HasSuffix(exprString(unparen(d)), ".Kind") {
+			return true
+		}
+	}
+	return false
 }
